@@ -1,25 +1,56 @@
 import Resolvo.Oracles
 import Resolvo.Enc.ReferenceProofs
+import Resolvo.MDet.AsyncProofs
 /-!
 # C10 / C11 — asynchronous metadata requests
 
-Decided per run by the async families: the real solver runs with an asynchronous provider under
-a manual single-threaded executor that completes one outstanding request at a time according to
-a schedule (FIFO, LIFO, seeded random; optionally with `filter_candidates` / `sort_candidates`
-asynchronous too). On every run: the answer is valid (verified `validB`), the verdict equals the
-verified `decideSolvable` (hence equals the synchronous verdict), no provider answer that was
-obtained is requested again, the executor never finds the solver pending with nothing outstanding
-(deadlock), and — C11 — at every quiescent point every `get_candidates` request implied by
-dependency information already received is outstanding or answered (`c11Check`).
-Proved here: the verdict oracle is schedule-independent by construction (it is a function of the
-universe and the problem only) and exact.
+**Model.** `MDet/Async.lean` models `Encoder::encode` with a suspending provider: the ready queue of
+`FuturesUnordered`, the in-flight marker and event listeners of `get_or_cache_candidates`, `try_join_all` over
+the version sets of a requirement and the executor's quiescent points, for a single-threaded executor that
+completes one outstanding request at a time. The completion order is an input. The correspondence harness
+compares the model with the real solver under the same completion order for exact equality of result, solution
+order, provider call log (request start `c`/`d`, answer obtained `C`/`D`, cancellation polls), executor events
+(`pending <set>` at every quiescent point, `complete <label>`) and the complete solver history.
+
+**Proved here (about the model, for all universes, states and schedules).**
+* C11, one future: `req_future_starts_every_version_set` — one poll of the future of a requirement starts *every*
+  version set of it (finished, request issued, or listening to a request in flight): requests are never issued one
+  after the other's answer;
+* C10, one await: `request_only_if_unknown`, `listener_issues_nothing` — a `get_candidates` request is issued only
+  when the answer is neither cached nor in flight and is marked in flight from then on; an await that finds a
+  request in flight issues nothing;
+* `verdict_reference`: the verdict oracle is a function of the universe and the problem alone and exact, so all
+  schedules that agree with it agree with each other and with the synchronous verdict.
+
+**Checked per run (not theorems):** the run-level consequences — no request issued twice in a whole solve, every
+request implied by received dependency information outstanding at every quiescent point (`c11Check`), no deadlock —
+are evaluated on the implementation's own log and the model is compared event by event.
 -/
 namespace Resolvo.C10
-open Resolvo
+open Resolvo Resolvo.MDet
 
 /-- the reference verdict does not mention schedules at all and is exact: any two runs that both
     agree with it agree with each other (async = sync verdict) -/
 theorem verdict_reference (U : Universe) (P : Problem) (hw : CandsKnown U) :
     decideSolvable U P = true ↔ Solvable U P := decideSolvable_iff U P hw
+
+/-- C11 (one future) -/
+theorem req_future_starts_every_version_set (U : Universe) (P : Problem) (t : ATask) (sid : SoR) (r : Req) (a : AS)
+    (s s' : S) (t' : ATask) (a' : AS) (res : Option TaskResult) (ht : t.task = .req sid r)
+    (h : runM (pollTask U P t a) s = (.ok (t', a', res), s')) :
+    t'.children.map (·.vs) = t.children.map (·.vs) ∧ ∀ c ∈ t'.children, c.started :=
+  pollTask_req_started U P t sid r a s s' t' a' res ht h
+
+/-- C10 (one await) -/
+theorem request_guard (U : Universe) (tid n : Nat) (a : AS) (s s' : S) (a' : AS)
+    (h : runM (pollCands U tid n .notStarted a) s = (.ok (.owner, a'), s')) :
+    s.fetchedCands.contains n = false ∧ a.inflight.lookup n = none ∧ a'.inflight.lookup n = some tid :=
+  request_only_if_unknown U tid n a s s' a' h
+
+/-- non-vacuity: on a fresh cache the first await of package 5 issues the request and owns it; a second await (other
+    future) of the same package then listens and issues nothing -/
+example : ∃ a' s', runM (pollCands {} 0 5 .notStarted {}) {} = (.ok (.owner, a'), s') ∧
+    ∃ a'' s'', runM (pollCands {} 1 5 .notStarted a') s' = (.ok (.listener, a''), s'') ∧ a''.gates = a'.gates :=
+  ⟨_, _, rfl, _, _, rfl, rfl⟩
 
 end Resolvo.C10
